@@ -49,6 +49,12 @@ def programs(t):
                         lines.append(line(T(srep, se), T(drep, de), tag, 'VIA_CTOR'))
                 # scaled -> built-in integer goes through a scaled_integer<Dest, power<0>> destination
                 lines.append(line(T(srep, -sh), T(drep, 0), tag, 'VIA_CONVERT'))
+                # ... and, where the library provides it (every tag but nearest), directly: convert<Tag, Int>{}(scaled) and
+                # rounding_integer<Int, Tag>{scaled} (separate overloads of the conversion operator)
+                if tag != 'NEA':
+                    lines.append(line(T(srep, -sh), drep, tag, 'VIA_CONVERT'))
+                    if sh in (1, 3, 8):
+                        lines.append(line(T(srep, -sh), drep, tag, 'VIA_CTOR'))
             # loss-free (destination finer or equal)
             if tag != 'NEA':  # convert<nearest_rounding_tag, finer-or-equal destination> is not instantiable (empty specialisation)
                 lines.append(line(T(srep, -2), T(drep, -4), tag, 'VIA_CONVERT'))
